@@ -188,6 +188,16 @@ pub fn adjacent_float_ends() -> Vec<Vec<PathControlPoint>> {
     v
 }
 
+/// Coordinate-wise equality of positions, independent of the library's `PartialEq for Pos`.
+pub fn same_pos(a: Pos, b: Pos) -> bool {
+    a.x == b.x && a.y == b.y
+}
+
+/// Coordinate-wise equality of two point lists.
+pub fn same_points(a: &[Pos], b: &[Pos]) -> bool {
+    a.len() == b.len() && a.iter().zip(b).all(|(p, q)| same_pos(*p, *q))
+}
+
 pub fn points_json(pts: &[PathControlPoint]) -> Value {
     Value::Array(
         pts.iter()
